@@ -117,7 +117,26 @@ fn check_message(rln: &mut RLN, req: &Value, prod: &Value) -> Value {
         };
         #[cfg(feature = "cfg-stateless")]
         let v_tree: Option<Result<bool, String>> = None;
-        json!({"verify_with_roots": format!("{:?}", v_roots), "verify": format!("{:?}", v_raw), "verify_rln_proof": v_tree.map(|v| format!("{:?}", v))})
+        // root sets of several sizes: own root first / last / in the middle (acceptable), absent (not acceptable), empty (documented: acceptable)
+        let foreign = |k: u8| { let mut b = vec![0u8; 32]; b[0] = k; b[5] = 9; b };
+        let mut sets: Vec<(String, Vec<u8>, bool)> = vec![("empty".into(), vec![], true), ("one-foreign".into(), foreign(1), false)];
+        for n in [2usize, 4, 9, 33] {
+            let all_foreign: Vec<u8> = (0..n).flat_map(|k| foreign(k as u8 + 1)).collect();
+            sets.push((format!("{n}-foreign"), all_foreign.clone(), false));
+            for (pos, name) in [(0usize, "first"), (n / 2, "middle"), (n - 1, "last")] {
+                let mut s = all_foreign.clone();
+                s[32 * pos..32 * pos + 32].copy_from_slice(&roots);
+                sets.push((format!("{n}-own-{name}"), s, true));
+            }
+        }
+        let mut bad_sets = vec![];
+        for (name, set, must) in sets {
+            let r = rln.verify_with_roots(Cursor::new(input.clone()), Cursor::new(set)).map_err(|e| e.to_string());
+            if r != Ok(must) {
+                bad_sets.push(format!("{name}: {:?}", r));
+            }
+        }
+        json!({"verify_with_roots": format!("{:?}", v_roots), "verify": format!("{:?}", v_raw), "verify_rln_proof": v_tree.map(|v| format!("{:?}", v)), "root_sets_wrong": bad_sets})
     }));
     r.unwrap_or(json!({"panic": true}))
 }
